@@ -5,6 +5,17 @@ import json, os, re, subprocess, sys, glob
 HERE = os.path.dirname(os.path.dirname(os.path.abspath(__file__)))
 rows = []
 only = sys.argv[1:]
+if only == ["--from-meta"]:
+    # rebuild MATRIX.md from the detected_by entries already recorded in seeded/*/meta.json (after partial re-runs)
+    with open(os.path.join(HERE, "seeded", "MATRIX.md"), "w") as f:
+        f.write("| seeded change | property | result | reporting obligations |\n|---|---|---|---|\n")
+        for d in sorted(glob.glob(os.path.join(HERE, "seeded", "*"))):
+            if os.path.isdir(d):
+                m = json.load(open(os.path.join(d, "meta.json")))
+                db = m.get("detected_by", {})
+                obs = ", ".join(sorted(set(o.split("/", 1)[1] if "/" in o else o for o in db.get("obligations", [])))[:4])
+                f.write(f"| {m['id']} | {m['property']} | {'DETECTED' if db.get('violations') else ('missed' if db else 'not run')} | {obs} |\n")
+    sys.exit(0)
 for d in sorted(glob.glob(os.path.join(HERE, "seeded", "*"))):
     if not os.path.isdir(d):
         continue
